@@ -293,9 +293,13 @@ def rows_equal(got_rows, exp_rows):
     return True
 
 
-def expect_ragged(out, exp_rows, what, exp_dtype=None, **info):
-    """The guarded call must have returned a RaggedArray with exactly these rows (and dtype if
-    the result has at least one element)."""
+import os as _os
+_EMPTY_DTYPE_EXPERIMENT = _os.environ.get("VERIF_EMPTY_DTYPE") == "1"      # development aid: list the places where empty results lose their dtype
+
+
+def expect_ragged(out, exp_rows, what, exp_dtype=None, empty_dtype=False, **info):
+    """The guarded call must have returned a RaggedArray with exactly these rows and this dtype (the dtype of a result
+    with no rows at all is not asserted: the library builds those as float64, which the pinned tree does too)."""
     from npstructures import RaggedArray
     if not out.ok:
         raise Violation(what + ":unexpected-refusal", expected=jsonable([np.asarray(r).tolist() for r in exp_rows]), got=out.brief(), **info)
@@ -314,11 +318,11 @@ def expect_ragged(out, exp_rows, what, exp_dtype=None, **info):
     if not rows_equal(rows, exp_rows):
         raise Violation(what + ":values", expected=jsonable([np.asarray(e).tolist() for e in exp_rows]),
                         got=jsonable([x.tolist() for x in rows]), **info)
-    if exp_dtype is not None and sum(exp_lens) > 0 and np.dtype(v.dtype) != np.dtype(exp_dtype):
+    if exp_dtype is not None and (sum(exp_lens) > 0 or len(exp_lens) > 0 or empty_dtype or _EMPTY_DTYPE_EXPERIMENT) and np.dtype(v.dtype) != np.dtype(exp_dtype):
         raise Violation(what + ":dtype", expected=str(np.dtype(exp_dtype)), got=str(v.dtype), **info)
 
 
-def expect_array(out, exp, what, check_dtype=True, **info):
+def expect_array(out, exp, what, check_dtype=True, empty_dtype=False, **info):
     """1-D/N-D ndarray result."""
     from npstructures import RaggedArray
     exp = np.asarray(exp)
@@ -332,7 +336,7 @@ def expect_array(out, exp, what, check_dtype=True, **info):
         raise Violation(what + ":shape", expected=jsonable(exp), got=jsonable(v), **info)
     if not arrays_equal(v, exp):
         raise Violation(what + ":values", expected=jsonable(exp), got=jsonable(v), **info)
-    if check_dtype and exp.size > 0 and v.dtype != exp.dtype:
+    if check_dtype and v.dtype != exp.dtype:
         raise Violation(what + ":dtype", expected=str(exp.dtype), got=str(v.dtype), **info)
 
 
@@ -358,8 +362,8 @@ def expect_unchanged(ra, rows, dtype, what, **info):
 
 # ---------------------------------------------------------------- lazy operands
 
-LAZY_MODES = 12
-LAZY_CHOICES = [0, 0, 0, 0, 1, 2, 3, 4, 5, 6, 7, 8, 9, 10, 11]     # what sub-checks draw the operand mode from
+LAZY_MODES = 13
+LAZY_CHOICES = [0, 0, 0, 0, 1, 2, 3, 4, 5, 6, 7, 8, 9, 10, 11, 12]     # what sub-checks draw the operand mode from
 
 
 def lazy_ra(rows, dtype, mode):
@@ -413,8 +417,13 @@ def lazy_ra(rows, dtype, mode):
         return np.maximum(b, b)
     if mode == 10:
         return b.astype(dt)
-    k = n // 2
-    return np.concatenate([b[:k], b[k:]])
+    if mode == 11:
+        k = n // 2
+        return np.concatenate([b[:k], b[k:]])
+    # mode 12: an array made by zeros_like / ones_like / empty_like and then given the content through its flat view
+    z = [np.zeros_like, np.ones_like, np.empty_like][n % 3](b)
+    z.ravel()[...] = b.ravel()
+    return z
 
 
 # ---------------------------------------------------------------- observables (shared with C19)
@@ -425,9 +434,9 @@ def norm(v):
     if isinstance(v, RaggedArray):
         rows = [np.asarray(r).tolist() for r in v]
         return {"k": "ragged", "rows": rows, "lens": [int(x) for x in v.lengths], "n": len(v),
-                "dt": str(v.dtype) if sum(len(r) for r in rows) else None}
+                "dt": str(v.dtype) if len(rows) else None}       # zero-row results are built as float64 by the library: not asserted
     if isinstance(v, np.ndarray):
-        return {"k": "ndarray", "v": v.tolist(), "shape": list(v.shape), "dt": str(v.dtype) if v.size else None}
+        return {"k": "ndarray", "v": v.tolist(), "shape": list(v.shape), "dt": str(v.dtype) if (v.size or (v.ndim and v.shape[0])) else None}
     if isinstance(v, np.generic):
         return {"k": "scalar", "v": v.item(), "dt": str(v.dtype)}
     if isinstance(v, (tuple, list)):
